@@ -279,6 +279,11 @@ func (viso *VirtualISO) scanDirectory() error {
 
 			dirItem.files = append(dirItem.files, fi)
 			viso.filesSizeSectors += fi.size.sectors()
+
+			// no need to go further (and make directory records for a lot of extents) if it's already too much
+			if viso.filesSizeSectors > math.MaxUint32 {
+				return fmt.Errorf("directory content is too large for ISO 9660 volume (%d sectors)", viso.filesSizeSectors)
+			}
 		}
 
 		viso.rootDir = append(viso.rootDir, dirItem)
